@@ -267,7 +267,16 @@ def run(ctx) -> None:
 
     # ---------------------------------------------------------------- R5
     defaults = _parse_defaults(ctx, pv)
-    ctx.floor("R5", "zero-value parts", len(zero), 7)
+    ctx.floor("R5", "zero-value parts", len(zero), 1)
+    # completeness: a part whose field reads back as the integer 0 when its group is absent is a part that can be "all zero",
+    # and so are the two tag parts (final / empty): each needs its entry, otherwise a group holding it is never omitted
+    omittable = sorted({p for p, f in fields.items() if p in fmts and isinstance(defaults.get(f), int) and not isinstance(defaults.get(f), bool) and defaults.get(f) == 0}
+                       | {p for p in ("TAG", "PYTAG") if p in fields})
+    ctx.floor("R5", "parts whose absent group reads back as zero", len(omittable), 7)
+    for p in omittable:
+        ctx.check("R5", p in zero, f"part {p} (absent group reads back as zero) has a zero value",
+                  f"version.PART_ZERO_VALUES lacks part '{p}'", f"a group such as `[.{p}]` is rendered even when {p} is zero: the rendering differs from the documented omission "
+                  f"(and from what was read when the group was absent)", loc="src/bumpver/version.py", witness={"pattern": f"vYYYY[.{p}]" if p not in ("TAG", "PYTAG") else "MAJOR.MINOR[-TAG]"})
     for p, z in sorted(zero.items()):
         if p not in fields or p not in fmts:
             continue
